@@ -6,6 +6,7 @@ import (
 	"time"
 
 	"github.com/douban/gobeansdb/config"
+	"github.com/douban/gobeansdb/vhook"
 )
 
 type GCMgr struct {
@@ -90,6 +91,7 @@ func (mgr *GCMgr) UpdateHtreePos(bkt *Bucket, ki *KeyInfo, oldPos, newPos Positi
 			bkt.ID, ki.StringKey, meta, oldPos)
 		return
 	}
+	vhook.PointS("gc.updatepos.mid", ki.StringKey)
 	bkt.htree.set(ki, meta, newPos)
 }
 
@@ -188,6 +190,8 @@ func (bkt *Bucket) gcCheckRange(startChunkID, endChunkID, noGCDays int) (start, 
 func (mgr *GCMgr) gc(bkt *Bucket, startChunkID, endChunkID int, merge bool) {
 
 	logger.Infof("begin GC bucket %d chunk [%d, %d]", bkt.ID, startChunkID, endChunkID)
+	vhook.PointI("gc.enter", int64(bkt.ID), 0)
+	defer vhook.PointI("gc.exit", int64(bkt.ID), 0)
 
 	bkt.GCHistory = append(bkt.GCHistory, GCState{})
 	gc := &bkt.GCHistory[len(bkt.GCHistory)-1]
@@ -246,6 +250,7 @@ func (mgr *GCMgr) gc(bkt *Bucket, startChunkID, endChunkID int, merge bool) {
 	}()
 
 	for gc.Src = gc.Begin; gc.Src <= gc.End; gc.Src++ {
+		vhook.PointI("gc.fileBegin", int64(gc.Src), int64(gc.Dst))
 		if gc.CancelFlag {
 			logger.Infof("GC canceled: src %d dst %d", gc.Src, gc.Dst)
 			return
@@ -281,6 +286,7 @@ func (mgr *GCMgr) gc(bkt *Bucket, startChunkID, endChunkID int, merge bool) {
 			meta := rec.Payload.Meta
 			ki := NewKeyInfoFromBytes(rec.Key, getKeyHash(rec.Key), false)
 			treeMeta, treePos, found := bkt.htree.get(ki)
+			vhook.PointS("gc.afterNewestCheck", ki.StringKey)
 			if found {
 				if oldPos == treePos { // easy
 					meta.ValueHash = treeMeta.ValueHash
@@ -339,6 +345,7 @@ func (mgr *GCMgr) gc(bkt *Bucket, startChunkID, endChunkID int, merge bool) {
 				return
 			}
 			// logger.Infof("%s %v %v", ki.StringKey, newPos, meta)
+			vhook.PointS("gc.afterCopy", ki.StringKey)
 			if found {
 				if isCoverdByCollision {
 					mgr.UpdateCollision(bkt, ki, oldPos, newPos, rec)
@@ -346,12 +353,14 @@ func (mgr *GCMgr) gc(bkt *Bucket, startChunkID, endChunkID int, merge bool) {
 				mgr.UpdateHtreePos(bkt, ki, oldPos, newPos)
 			}
 
+			vhook.PointS("gc.afterRepoint", ki.StringKey)
 			rotated := bkt.hints.set(ki, &meta, newPos, recsize, "gc")
 			if rotated {
 				bkt.hints.trydump(gc.Dst, false)
 			}
 		}
 
+		vhook.PointI("gc.beforeClear", int64(gc.Src), int64(gc.Dst))
 		if gc.Src != gc.Dst {
 			bkt.datas.chunks[gc.Src].Clear()
 		}
